@@ -96,6 +96,18 @@ Theorem C14_hit_did_not_compile :
 Proof. exact execute_runs. Qed.
 Print Assumptions C14_hit_did_not_compile.
 
+(* A request whose processing PANICS inside the compile task (a storage backend or sccache's own code) is not lost
+   to the statistics: the panic is caught (`catch_unwind` around `get_cached_or_compile`), the request is answered
+   with a fatal error and ends in the outcome class "error" (cache_errors) — so it is an executed request with
+   exactly one outcome like any other, and the laws above cover it. *)
+Theorem C14_panic_is_an_error_outcome :
+  (forall f cc o st, r_client (snd (execute f cc o st)) = CFatal ->
+                     r_outcome (snd (execute f cc o st)) = Some OFatal)
+  /\ (forall l, in_class CErr (KExecuted l OFatal) = true
+                /\ program (KExecuted l OFatal) = [[ICompileRequests]; [IExecuted]; [ICacheError l]]).
+Proof. split; [exact execute_panic_is_error | intro l; split; reflexivity]. Qed.
+Print Assumptions C14_panic_is_an_error_outcome.
+
 (* Zeroing while a request is in flight breaks the laws at the next quiescent point (inherent: the request's
    earlier increments are wiped, its later ones are not); the property's "zeroing in between" is therefore
    zeroing at quiescent points, as in [run_history]. *)
